@@ -117,8 +117,23 @@ where
         Ok(h) => h,
         Err(e) => return rep.fail(ck, "honest-generation-failed", format!("hidden {:?} of {}: {}", hidden, n, e), cj(json!(null))),
     };
+    // a verification that is refused by a panic is followed at once by the honest verification on the same thread:
+    // what the aborted call leaves behind (a scratch buffer filled half way, a lock) must not reach the next call
+    let stale_after_panic = std::cell::Cell::new(false);
+    let panics_followed_up = std::cell::Cell::new(0u32);
     let ver = |p: &PoKSignature<CL03<CS>>, cpk: &CL03CommitmentPublicKey, k: &CL03PublicKey, bs: &Bases, rev: &[CL03Message], hid: &[usize], nn: usize| {
-        catch(|| p.proof_verify(cpk, k, bs, rev, hid, nn)).unwrap_or(false)
+        match catch(|| p.proof_verify(cpk, k, bs, rev, hid, nn)) {
+            Ok(b) => b,
+            Err(_) => {
+                if panics_followed_up.get() < 12 {
+                    panics_followed_up.set(panics_followed_up.get() + 1);
+                    if !catch(|| h.proof.proof_verify(&h.cpk, pk, &h.bases, &h.revealed, &hidden, n)).unwrap_or(false) {
+                        stale_after_panic.set(true);
+                    }
+                }
+                false
+            }
+        }
     };
 
     // ---- positive -----------------------------------------------------------------------------
@@ -160,6 +175,9 @@ where
     // ---- negative ------------------------------------------------------------------------------
     let reject = |family: &str, acc: bool, detail: String| -> CheckResult {
         rep.eval(ck, 1);
+        if stale_after_panic.get() {
+            return rep.fail(ck, "honest-signature-proof-rejected-right-after-a-panicking-refusal", format!("the verification under {} ({}) was refused by a panic; the honest proof verified next on the same thread is refused", family, detail), cj(json!({"family": family, "detail": detail})));
+        }
         if acc {
             return rep.fail(ck, &format!("accepted:{}", family), format!("proof_verify is true ({}): {}", family, detail), cj(json!({"family": family, "detail": detail})));
         }
@@ -340,6 +358,12 @@ where
             }
         }
     }
+    // list shapes: entries dropped from the proof's lists (one list, two lists of the same length, all of them)
+    for (tag, j3) in array_drop_edits(&pj) {
+        let Ok(p3) = serde_json::from_value::<PoKSignature<CL03<CS>>>(j3) else { continue };
+        rep.class_n("list-entries-dropped", 1);
+        reject("shortened-lists", ver(&p3, &h.cpk, pk, &h.bases, &h.revealed, &hidden, n), tag)?;
+    }
     // after the refused requests above (several refuse by panicking): the honest proof still verifies on this
     // thread, and so does a proof generated now
     rep.eval(ck, 2);
@@ -484,7 +508,7 @@ pub fn run(ctx: &Ctx, rep: &Report) -> Meta {
     Meta {
         rule: "signer key from a pool, n attributes, EVERY hidden set (none ... all) for n = 1..3 (quick) / 1..5 (thorough) plus generated cases, signatures issued directly and through blind issuance, commitment key over the issuer modulus; \
                positive: proof_verify true with the revealed attributes in index order, proof survives JSON, in every second case the whole flow is repeated with signature (octets and JSON), keys, bases, commitment key, attributes and proof serialised and decoded between the steps; negative: every revealed attribute changed, swaps, other signer key (also b or c alone changed), other bases, other commitment key, single-field edits of the key material (commitment key N +- 2, h, g_0 and the g_i of hidden positions squared; signer N + 2; every base a_i that matters squared), \
-               another hidden set of the same size, n+1 / n-1 (also n+1 and n+3 against key material with spare bases and the true revealed list), range_proof_e replaced by an honest range proof for another commitment, every composite node of the serialised proof replaced by the node at the same path of a second honest proof for other hidden values (same key, bases, commitment key, positions; every second case), and integer leaves of the serialised proof perturbed by +1, -1, := 0, := sibling, one high bit flipped, +2^k for k in {128, 160, 256, 300} \
+               list shapes (the last / first entry dropped from every list of the serialised proof, from every two lists of equal length, from all of them), every verification that is refused by a panic followed at once by the honest verification on the same thread (up to 12 per case), another hidden set of the same size, n+1 / n-1 (also n+1 and n+3 against key material with spare bases and the true revealed list), range_proof_e replaced by an honest range proof for another commitment, every composite node of the serialised proof replaced by the node at the same path of a second honest proof for other hidden values (same key, bases, commitment key, positions; every second case), and integer leaves of the serialised proof perturbed by +1, -1, := 0, := sibling, one high bit flipped, +2^k for k in {128, 160, 256, 300} \
                (24-40 sampled perturbations per proof in quick, every leaf in thorough's fixed list); hidden-position list extended by positions >= n (appended, prepended) and by a revealed position, an honest range proof for another value transplanted onto Ce, n = 6 and 8, volume: 1400 (quick) / 12000 (thorough) honest proofs of the cheapest shapes each verified, every attribute count 9..=24 (quick) / 9..=48 (thorough) with two or three hidden positions including the last; after the negative families the honest proof and a freshly generated one verify again on the same thread; a refusal by panic counts as not verifying; non-trivial = (n, U) != (3, {0}); evaluations = verifier decisions"
             .into(),
         assumptions: vec!["CL2048/CL3072 in thorough only (fixture primes)".into()],
